@@ -290,6 +290,8 @@ void error (const char *fmt, ...) {
 
   va_start (args, fmt);
   len = vsnprintf (msg, sizeof(msg)-1, fmt, args);
+  if (len > (int)sizeof(msg) - 2)
+    len = (int)sizeof(msg) - 2; /* vsnprintf() returns the untruncated length */
   if (len > 0 && msg[len-1] != '\n')
     {
       msg[len] = '\n';
@@ -381,7 +383,7 @@ void bad_argument (svalue_t * val, int type, int arg, int instr) {
   strncpy (msg, outbuf.buffer, sizeof(msg)-1);
   FREE_MSTR (outbuf.buffer);
 
-  error (msg);
+  error ("%s", msg); /* the text holds the offending value: never a format string */
 }
 
 #ifdef NEOLITH_VERIF
